@@ -36,3 +36,4 @@ func HashSum(kind string, data []byte) []byte      { return nil }
 func Reach(label string)                           {}
 func Bound(name string, quick int) int              { return quick }
 func Timed() bool                                  { return false }
+func Inside(pattern string) int                    { return 0 }
